@@ -117,6 +117,32 @@ Theorem rem_removes_first_equal :
 Proof. exact SeqProofs.spec_rem_first. Qed.
 Print Assumptions rem_removes_first_equal.
 
+(* the repaired error-path defects of this area were real: witnesses on the pre-repair variants of
+   the models (D13 cab8f5d, D14 9c281b5, D15 898595c; they concern C12, recorded here because the
+   sequence models live here) *)
+Theorem array_push_at_pre_repair_refuted :
+  exists (a : array Z) (k v : Z),
+    in_range Z Z.eqb KArray (a_abs Z a) (SPushAt Z k v) = false /\
+    snd (a_push_at_old Z array_grow_cond array_grow_size a k v) = ORaise Z IndexError /\
+    nitems Z (fst (a_push_at_old Z array_grow_cond array_grow_size a k v)) = S (nitems Z a).
+Proof. exact SeqTheorems.array_push_at_pre_repair_refuted. Qed.
+Print Assumptions array_push_at_pre_repair_refuted.
+
+Theorem tuple_pop_at_pre_repair_refuted :
+  exists (t : tuple Z) (k : Z),
+    theap Z t = false /\
+    snd (t_pop_at_old Z t 3 k) = ORaise Z ValueError /\
+    t_abs Z (fst (t_pop_at_old Z t 3 k)) <> t_abs Z t.
+Proof. exact SeqTheorems.tuple_pop_at_pre_repair_refuted. Qed.
+Print Assumptions tuple_pop_at_pre_repair_refuted.
+
+Theorem tuple_rem_pre_repair_refuted :
+  exists (t : tuple Z) (v : Z),
+    in_range Z Z.eqb KTuple (t_abs Z t) (SRem Z v) = false /\
+    snd (t_rem_old Z Z.eqb t 3 v) = OUnit Z.
+Proof. exact SeqTheorems.tuple_rem_pre_repair_refuted. Qed.
+Print Assumptions tuple_rem_pre_repair_refuted.
+
 (* ---------------------------------------------------------------- non-vacuity *)
 Definition zops : list (sop Z) :=
   [SPush Z 5; SPushAt Z (-1) 7; SPushAt Z 0 9; SGet Z (-2); SSort Z; SPopAt Z (-1); SRem Z 3;
